@@ -8,7 +8,7 @@ import param
 from sx.api import assume, check, cover, untraced, pick, pickbool
 
 PROPERTY = 'C17'
-LABELS = ['C17.multi_dep_once', 'C17.succeeds', 'C17.equal', 'C17.no_shared_state', 'C17.deps_work', 'C17.independent', 'C17.foreign_watcher_kept',
+LABELS = ['C17.queues_private', 'C17.multi_dep_once', 'C17.succeeds', 'C17.equal', 'C17.no_shared_state', 'C17.deps_work', 'C17.independent', 'C17.foreign_watcher_kept',
           'C17.refs_work_on_copy']
 SHADOWED_BY_KNOWN = {}      # every label is also reached by the shards without the sub-object dependency
 EXPLANATION = ("Harness c17.prog: an object with an Integer, a List, a sub-object, an allow_refs parameter, a depends(watch=True) "
@@ -22,7 +22,7 @@ STUBS = ["the copy call itself runs natively on realised state (pickle's identit
 OUTSIDE = ["values outside [-2,2]", "async references", "class-level watchers"]
 ASSUMPTIONS = ["values in [-2,2] realised before the copy boundary"]
 N_PRE = 5
-N_POST = 9
+N_POST = 10
 
 
 class Sub(param.Parameterized):
@@ -158,6 +158,19 @@ def prog(subdep: bool, mech: int, helper: bool, pre1: int, pv1: int, post1: int,
             except Exception:       # noqa
                 okr = False
             check('C17.refs_work_on_copy', okr, inf)
+        elif o == 9:
+            # a batch open on one restored object does not capture (or get flushed by) assignments on another restored object
+            from param.parameterized import batch_call_watchers
+            with untraced():
+                q2 = copy.deepcopy(q) if mech == 0 else pickle.loads(pickle.dumps(q, protocol=2 if mech == 1 else 5))
+            a, b = (q, q2) if s == 1 else (q2, q)
+            na, nb = a.n, b.n
+            with batch_call_watchers(a):
+                a.x = a.x + 1
+                b.x = b.x + 1
+                check('C17.queues_private', b.n == nb + 1 and a.n == na, dict(inf, inside=True, a=a.n - na, b=b.n - nb))
+            check('C17.queues_private', a.n == na + 1 and b.n == nb + 1, dict(inf, a=a.n - na, b=b.n - nb))
+            snap = (other.x, list(other.l), other.param.x.bounds, other.n, other.sub.v, other.r)
         elif o == 8:
             # one update changing both dependencies of _m2: exactly one call, on this side only
             k2, ko = me.n2, other.n2
@@ -202,4 +215,4 @@ def shards(tier):
 def bounds(tier):
     return dict(pre_history=1, post_history=2, mechanisms=['copy.deepcopy', 'pickle protocol 2', 'pickle protocol 5'],
                 values='fixed (2, 1, -1)' if tier == 'quick' else '[-2,2]',
-                post_ops=['set x', 'append to l', 'edit x.bounds', 'set sub.v', 'link r to a source Parameter', 'set r plain', 'update the source', 'append to the per-instance Selector.objects', 'update(x, y) with a two-parameter dependent method'])
+                post_ops=['set x', 'append to l', 'edit x.bounds', 'set sub.v', 'link r to a source Parameter', 'set r plain', 'update the source', 'append to the per-instance Selector.objects', 'update(x, y) with a two-parameter dependent method', 'batch on one restored object while another is assigned'])
